@@ -3,6 +3,8 @@ package main
 import (
 	"go/ast"
 	"go/token"
+	"go/types"
+	"strconv"
 	"strings"
 )
 
@@ -15,6 +17,18 @@ import (
 //   - pyList.Freeze returns pyFrozenList{pyList: l}: the wrapper goes around the ORIGINAL slice (shallow);
 //   - pyDict.Freeze returns pyFrozenDict{pyDict: frozen} around the COPY with frozen members;
 //   - pyFrozenList.IndexAssign and pyFrozenDict.IndexAssign panic.
+//
+// Two more pieces are TRANSLATED (follow-up round; Proof/C17_Followup.v proves the two facts the frame theorem uses
+// about them, so a change of either changes the generated definitions and breaks those proofs):
+//
+//   - the `case Union:` clause of pyDict.Operator, statement by statement, into c17_dict_union_steps (check the
+//     operand, make the result, copy one side, return the result; an early `if len(x) == 0 { return y }` is
+//     translated too - the result is then an operand, for a frozen receiver the inner unfrozen map every package
+//     shares, and c17_union_steps_fresh no longer computes to true);
+//   - the loop of scope.Freeze (src/parse/asp/interpreter.go) into c17_scope_freeze_skips, the list of name prefixes
+//     the loop skips before it freezes a value (`if k[0] == '_' { continue }`, `if strings.HasPrefix(k, "_") { continue }`);
+//     the unchanged loop skips nothing: subinclude() imports private names too (SetAll with publicOnly = false), so a
+//     skipped name reaches every package unfrozen.
 //
 // Anything else fails closed.
 func init() {
@@ -75,7 +89,11 @@ func init() {
 		matchShape("pyFrozenList.IndexAssign", bodyText(fset, findFunc(f, "pyFrozenList", "IndexAssign")), `{ panic("list is immutable") }`)
 		matchShape("pyFrozenDict.IndexAssign", bodyText(fset, findFunc(f, "pyFrozenDict", "IndexAssign")), `{ panic("dict is immutable") }`)
 
-		return "(* src/parse/asp/objects.go, pinned shapes (see harness/cmd/gotrans/c17freeze.go) *)\n" +
+		unionSteps := c17UnionSteps(fset, f)
+		skips := c17ScopeFreezeSkips()
+
+		return "From Coq Require Import List NArith. Import ListNotations.\n" +
+			"(* src/parse/asp/objects.go, pinned shapes (see harness/cmd/gotrans/c17freeze.go) *)\n" +
 			"(* pyList.Operator(Add) = l.concat(l2); concat = make(pyList, 0, len(l)+len(l2)) then append both *)\n" +
 			"Definition list_add_allocates : bool := true.\n" +
 			"(* pyList.Freeze returns the wrapper around the original slice *)\n" +
@@ -83,6 +101,191 @@ func init() {
 			"(* pyDict.Freeze returns the wrapper around the copy with frozen members *)\n" +
 			"Definition freeze_dict_copies : bool := true.\n" +
 			"(* IndexAssign on the frozen wrappers panics *)\n" +
-			"Definition frozen_index_assign_panics : bool := true.\n"
+			"Definition frozen_index_assign_panics : bool := true.\n" +
+			"(* pyDict.Operator, case Union, statement by statement (d = the receiver, d2 = the operand) *)\n" +
+			"Inductive c17_side := C17Left | C17Right.\n" +
+			"Inductive c17_ustep :=\n" +
+			"| C17Check                                  (* d2, ok := operand.(pyDict); if !ok { panic } *)\n" +
+			"| C17ReturnIfEmpty (test ret : c17_side)    (* if len(test) == 0 { return ret } *)\n" +
+			"| C17Make                                   (* ret := make(pyDict, len(d)+len(d2)) *)\n" +
+			"| C17Copy (src : c17_side)                  (* for k, v := range src { ret[k] = v } *)\n" +
+			"| C17ReturnRet.                             (* return ret *)\n" +
+			"Definition c17_dict_union_steps : list c17_ustep := [" + strings.Join(unionSteps, "; ") + "].\n" +
+			"(* scope.Freeze (interpreter.go): the name prefixes (as bytes) the loop skips before freezing a value *)\n" +
+			"Definition c17_scope_freeze_skips : list (list N) := [" + strings.Join(skips, "; ") + "].\n"
 	}
+}
+
+func c17StmtText(fs *token.FileSet, st ...ast.Stmt) string {
+	return bodyText(fs, &ast.FuncDecl{Name: ast.NewIdent("stmt"), Body: &ast.BlockStmt{List: st}})
+}
+
+// c17UnionSteps translates the `case Union:` clause of pyDict.Operator.
+func c17UnionSteps(fs *token.FileSet, f *ast.File) []string {
+	op := findFunc(f, "pyDict", "Operator")
+	var union *ast.CaseClause
+	for _, st := range op.Body.List {
+		sw, ok := st.(*ast.SwitchStmt)
+		if !ok {
+			continue
+		}
+		for _, c := range sw.Body.List {
+			cc := c.(*ast.CaseClause)
+			for _, e := range cc.List {
+				if id, ok := e.(*ast.Ident); ok && id.Name == "Union" {
+					if len(cc.List) != 1 || union != nil {
+						failShape("pyDict.Operator: Union shares its case clause or is listed twice")
+					}
+					union = cc
+				}
+			}
+		}
+	}
+	if union == nil {
+		failShape("pyDict.Operator has no `case Union:`")
+	}
+	if len(union.Body) < 2 {
+		failShape("pyDict.Operator case Union is too short")
+	}
+	matchShape("pyDict.Operator case Union (operand check)", c17StmtText(fs, union.Body[0], union.Body[1]),
+		`{ d2, ok := operand.(pyDict) if !ok { panic("Operator to | must be another dict, not " + operand.Type()) } }`)
+	steps := []string{"C17Check"}
+	side := func(e ast.Expr) string {
+		switch types.ExprString(e) {
+		case "d":
+			return "C17Left"
+		case "d2":
+			return "C17Right"
+		}
+		failShape("pyDict.Operator case Union: %s is neither operand", types.ExprString(e))
+		return ""
+	}
+	var early func(is *ast.IfStmt)
+	early = func(is *ast.IfStmt) {
+		// if len(x) == 0 { return y } [else if ...]
+		be, ok := is.Cond.(*ast.BinaryExpr)
+		if is.Init != nil || !ok || be.Op != token.EQL || types.ExprString(be.Y) != "0" {
+			failShape("pyDict.Operator case Union: unrecognised condition %s", types.ExprString(is.Cond))
+		}
+		call, ok := be.X.(*ast.CallExpr)
+		if !ok || types.ExprString(call.Fun) != "len" || len(call.Args) != 1 {
+			failShape("pyDict.Operator case Union: unrecognised condition %s", types.ExprString(is.Cond))
+		}
+		if len(is.Body.List) != 1 {
+			failShape("pyDict.Operator case Union: early-return body is not a single return")
+		}
+		ret, ok := is.Body.List[0].(*ast.ReturnStmt)
+		if !ok || len(ret.Results) != 1 {
+			failShape("pyDict.Operator case Union: early-return body is not a single return")
+		}
+		steps = append(steps, "C17ReturnIfEmpty "+side(call.Args[0])+" "+side(ret.Results[0]))
+		switch e := is.Else.(type) {
+		case nil:
+		case *ast.IfStmt:
+			early(e)
+		default:
+			failShape("pyDict.Operator case Union: unrecognised else branch")
+		}
+	}
+	made, returned := false, false
+	for _, st := range union.Body[2:] {
+		if returned {
+			failShape("pyDict.Operator case Union: statements after the final return")
+		}
+		switch t := st.(type) {
+		case *ast.AssignStmt:
+			matchShape("pyDict.Operator case Union (make)", c17StmtText(fs, t), `{ ret := make(pyDict, len(d)+len(d2)) }`)
+			if made {
+				failShape("pyDict.Operator case Union: the result is made twice")
+			}
+			made = true
+			steps = append(steps, "C17Make")
+		case *ast.RangeStmt:
+			if !made {
+				failShape("pyDict.Operator case Union: copy before make")
+			}
+			src := side(t.X)
+			t2 := *t
+			t2.X = ast.NewIdent("SRC")
+			matchShape("pyDict.Operator case Union (copy loop)", c17StmtText(fs, &t2), `{ for k, v := range SRC { ret[k] = v } }`)
+			steps = append(steps, "C17Copy "+src)
+		case *ast.IfStmt:
+			early(t)
+		case *ast.ReturnStmt:
+			matchShape("pyDict.Operator case Union (return)", c17StmtText(fs, t), `{ return ret }`)
+			if !made {
+				failShape("pyDict.Operator case Union: return before make")
+			}
+			returned = true
+			steps = append(steps, "C17ReturnRet")
+		default:
+			failShape("pyDict.Operator case Union: unrecognised statement %s", c17StmtText(fs, st))
+		}
+	}
+	if !returned {
+		failShape("pyDict.Operator case Union does not end in `return ret`")
+	}
+	return steps
+}
+
+// c17ScopeFreezeSkips translates the loop of scope.Freeze: the result is the list of name prefixes (Coq byte lists)
+// for which the loop `continue`s before the value is frozen.
+func c17ScopeFreezeSkips() []string {
+	fs, f := parseFile("src/parse/asp/interpreter.go")
+	fd := findFunc(f, "scope", "Freeze")
+	if len(fd.Body.List) != 2 {
+		failShape("scope.Freeze is not `for ... range s.locals { ... }; return s.locals`")
+	}
+	matchShape("scope.Freeze (return)", c17StmtText(fs, fd.Body.List[1]), `{ return s.locals }`)
+	loop, ok := fd.Body.List[0].(*ast.RangeStmt)
+	if !ok || loop.Tok != token.DEFINE || types.ExprString(loop.X) != "s.locals" || loop.Key == nil || loop.Value == nil ||
+		types.ExprString(loop.Key) != "k" || types.ExprString(loop.Value) != "v" {
+		failShape("scope.Freeze does not start with `for k, v := range s.locals`")
+	}
+	body := loop.Body.List
+	if len(body) == 0 {
+		failShape("scope.Freeze: empty loop body")
+	}
+	matchShape("scope.Freeze (freeze step)", c17StmtText(fs, body[len(body)-1]), `{ if f, ok := v.(freezable); ok { s.locals[k] = f.Freeze() } }`)
+	bytesOf := func(p string) string {
+		if p == "" {
+			failShape("scope.Freeze: a filter on the empty prefix skips every name")
+		}
+		out := []string{}
+		for i := 0; i < len(p); i++ {
+			out = append(out, strconv.Itoa(int(p[i]))+"%N")
+		}
+		return "[" + strings.Join(out, "; ") + "]"
+	}
+	skips := []string{}
+	for _, st := range body[:len(body)-1] {
+		// if <k starts with a literal> { continue }
+		is, ok := st.(*ast.IfStmt)
+		if !ok || is.Init != nil || is.Else != nil || len(is.Body.List) != 1 {
+			failShape("scope.Freeze: unrecognised statement in the loop: %s", c17StmtText(fs, st))
+		}
+		if br, ok := is.Body.List[0].(*ast.BranchStmt); !ok || br.Tok != token.CONTINUE || br.Label != nil {
+			failShape("scope.Freeze: unrecognised statement in the loop: %s", c17StmtText(fs, st))
+		}
+		switch c := is.Cond.(type) {
+		case *ast.BinaryExpr:
+			lit, ok := c.Y.(*ast.BasicLit)
+			if c.Op != token.EQL || types.ExprString(c.X) != "k[0]" || !ok || lit.Kind != token.CHAR {
+				failShape("scope.Freeze: unrecognised filter %s", types.ExprString(is.Cond))
+			}
+			skips = append(skips, bytesOf(unquote(lit)))
+		case *ast.CallExpr:
+			if types.ExprString(c.Fun) != "strings.HasPrefix" || len(c.Args) != 2 || types.ExprString(c.Args[0]) != "k" {
+				failShape("scope.Freeze: unrecognised filter %s", types.ExprString(is.Cond))
+			}
+			lit, ok := c.Args[1].(*ast.BasicLit)
+			if !ok || lit.Kind != token.STRING {
+				failShape("scope.Freeze: unrecognised filter %s", types.ExprString(is.Cond))
+			}
+			skips = append(skips, bytesOf(unquote(lit)))
+		default:
+			failShape("scope.Freeze: unrecognised filter %s", types.ExprString(is.Cond))
+		}
+	}
+	return skips
 }
